@@ -455,6 +455,33 @@ def run(ctx):
             ctx.check(not problems and decided >= 1, 'R2', '%s: %s and %s call %s with the recorded fields in the same roles (%d field(s))' % (nm, f['q'], kern['q'].replace(NR, ''), smpi_call(o).replace('simgrid::smpi::', ''), decided),
                       where(f, e.line), '; '.join(problems), key='R2|%s|%s' % (f['q'], nm))
     ctx.require(n2 >= 12, 'R2', 'only %d online/replay pairs compared' % n2)
+    # ---- R4 pending requests of one (src, dst, tag) are completed in the order they were posted -------------------------------------------------
+    ctx.rule('R4', 'RequestStorage is first-in first-out per (src, dst, tag): a wait/test line names its request only by that triple, and the online run completed them in posting order', 1)
+    ins, rem = set(), set()
+    n4 = 0
+    for f in sorted(P.fns.values(), key=lambda f_: f_['key']):
+        if not (f['q'].startswith(NR + 'RequestStorage::') and f.get('blocks')):
+            continue
+        for e in all_events(A, f):
+            if e.kind != 'call' or e.obj is None:
+                continue
+            m = e.q.rsplit('::', 1)[-1]
+            per_key = '.second' in ex.pretty(e.obj) or 'operator[]' in repr(e.obj)
+            if not per_key:
+                continue
+            side = {'push_back': ('ins', 'back'), 'emplace_back': ('ins', 'back'), 'push_front': ('ins', 'front'), 'emplace_front': ('ins', 'front'),
+                    'front': ('rem', 'front'), 'pop_front': ('rem', 'front'), 'back': ('rem', 'back'), 'pop_back': ('rem', 'back')}.get(m)
+            if side is None:
+                continue
+            n4 += 1
+            (ins if side[0] == 'ins' else rem).add((side[1], f['q'].replace(NR, ''), e.line))
+    isides = set(x[0] for x in ins)
+    rsides = set(x[0] for x in rem)
+    fifo = len(isides) == 1 and len(rsides) == 1 and isides != rsides
+    ctx.check(fifo and n4 >= 3, 'R4', 'RequestStorage: requests are added at one end of the per-key sequence and taken from the other', where(P.fn(NR + 'RequestStorage::pop')),
+              'inserted at %s (%s), taken from %s (%s)%s' % (sorted(isides), sorted(set(x[1] for x in ins)), sorted(rsides), sorted(set(x[1] for x in rem)),
+                                                          '' if fifo else ': two pending requests with the same source, destination and tag are completed in the wrong order, so a replayed wait blocks on another transfer than the online one'),
+              key='R4|RequestStorage|fifo per key')
     ctx.assume('the replayed dates are not decided; MPI_COMM_WORLD replaces the recorded communicator (ranks are translated by the writer); computation is not simulated')
     return EXPLANATION
 
